@@ -127,7 +127,7 @@ class WalkModel:
         for meth in self.client.methods.values():
             for n in own_nodes(meth.node):
                 if isinstance(n, ast.Call) and self.walk in [c for c in self.ctx.r.callees(meth, n) if isinstance(c, FuncInfo)]:
-                    bound = bind_call_args(n, self.walk.params)
+                    bound = bind_call_args(n, self.walk.params, defs=self.ctx.defs(meth))
                     arg = bound.get(self.fetch_param)
                     if isinstance(arg, ast.Call):
                         for callee in self.ctx.r.callees(meth, arg):
